@@ -1579,11 +1579,11 @@ class QueryBuilder(Selectable, Term):  # type:ignore[misc]
         if self._for_update:
             querystring += self._for_update_sql(ctx)
 
-        if subquery:
-            querystring = "({query})".format(query=querystring)
         if self._on_conflict:
             querystring += self._on_conflict_sql(ctx)
             querystring += self._on_conflict_action_sql(ctx)
+        if subquery:
+            querystring = "({query})".format(query=querystring)
         if with_alias:
             return format_alias_sql(querystring, self.alias, ctx)
 
